@@ -208,4 +208,113 @@ theorem wrapText_ok (e : Exc) (h : e.ok = true) : ∃ t, wrapText F p e.live e.c
       | none => simp at h
       | other _ => simp at h
 
+/-! ### one hop and many hops -/
+
+/-- the first hop of an exception whose nested exceptions carry tracebacks: if the text is
+    defined the hop succeeds, yields a received exception, and that is a faithful image -/
+theorem hop_first (e : Exc) (ar : TbArg) (hm : e.mem.ok = true) (t : Text)
+    (ht : wrapText F p e.live e.cause ar = some t) :
+    ∃ e1, hopWith F p ar e = some e1 ∧ e1.recv = true ∧ ImgT F p e t e1 := by
+  obtain ⟨w, hw, hs, _, _⟩ := wrap_ok F p e ar hm t ht
+  refine ⟨rebuild t (pk w), by simp [hopWith, hw], pk_sent w hs t, ?_⟩
+  exact (img_wrap F p e ar hm w t hw).2
+
+theorem recv_shape (e : Exc) (h : e.recv = true) :
+    ∃ c a t m, e = .mk c a none (.remote t) m ∧ m.recv = true := by
+  cases e with
+  | mk c a l k m =>
+    simp only [Exc.recv, Bool.and_eq_true, Option.isNone_iff_eq_none] at h
+    obtain ⟨⟨rfl, hk⟩, hm⟩ := h
+    cases k with
+    | remote t => exact ⟨c, a, t, m, rfl, hm⟩
+    | none => simp at hk
+    | other _ => simp at hk
+
+theorem infix_fmt_remote (own t : Text) : t <:+: p ++ fmtChain F own (.remote t) :=
+  ⟨p ++ F.rtbHead, F.rtbTail ++ F.causeSep ++ own, by simp [fmtChain, List.append_assoc]⟩
+
+/-- any further hops of a received exception: everything but the top-level text stays the same;
+    the text only grows around the old one, and stays identical when no hop raises it again -/
+theorem run_recv (c : Nat) (a : List Nat) (m : Mems) (hm : m.recv = true) :
+    ∀ (hs : List Hop) (t : Text), ∃ t', run F (.mk c a none (.remote t) m) hs = some (.mk c a none (.remote t') m)
+      ∧ t <:+: t' ∧ ((∀ h ∈ hs, h.reraise = none) → t' = t) := by
+  intro hs
+  induction hs with
+  | nil => intro t; exact ⟨t, rfl, List.infix_refl _, fun _ => rfl⟩
+  | cons h hs ih =>
+    intro t
+    cases hr : h.reraise with
+    | none =>
+      obtain ⟨t', h1, h2, h3⟩ := ih t
+      refine ⟨t', ?_, h2, fun hall => h3 (fun x hx => hall x (List.mem_cons_of_mem _ hx))⟩
+      have : step F (.mk c a none (.remote t) m) h = some (.mk c a none (.remote t) m) := by
+        simp only [step, hr]
+        exact hop_recv F h.proc _ (by simp [Exc.recv, hm])
+      simp only [run, Core.run_cons, this, Option.bind_some] at h1 ⊢
+      exact h1
+    | some own =>
+      obtain ⟨t', h1, h2, _⟩ := ih (h.proc ++ fmtChain F own (.remote t))
+      refine ⟨t', ?_, List.IsInfix.trans (infix_fmt_remote F h.proc own t) h2, ?_⟩
+      · have : step F (.mk c a none (.remote t) m) h
+            = some (.mk c a none (.remote (h.proc ++ fmtChain F own (.remote t))) m) := by
+          simp only [step, hr]
+          exact hop_reraised F h.proc c a t m hm own
+        simp only [run, Core.run_cons, this, Option.bind_some] at h1 ⊢
+        exact h1
+      · intro hall
+        have := hall h (List.mem_cons_self ..)
+        simp [hr] at this
+
+/-- `ImgT` only constrains the top-level text through its `t` -/
+theorem imgT_retext (e : Exc) (t t' : Text) (c : Nat) (a : List Nat) (m : Mems)
+    (h : ImgT F p e t (.mk c a none (.remote t) m)) : ImgT F p e t' (.mk c a none (.remote t') m) := by
+  cases e with
+  | mk c0 a0 l k m0 =>
+    simp only [ImgT, Exc.cls, Exc.args, Exc.live, Exc.cause, Exc.mem, true_and] at h ⊢
+    exact ⟨h.1, h.2.1, h.2.2⟩
+
+/-- the exception a hop wraps: the holder's exception, possibly raised again first -/
+def Hop.pre (h : Hop) (e : Exc) : Exc := match h.reraise with | none => e | some own => e.raised own
+
+theorem step_eq (e : Exc) (h : Hop) : step F e h = hop F h.proc (h.pre e) := rfl
+
+theorem ok_of_live (e : Exc) (own : Text) (hl : e.live = some own) (hn : e.mem.ok = true) : e.ok = true := by
+  cases e with
+  | mk c a l k m =>
+    simp only [Exc.live] at hl
+    simp only [Exc.mem] at hn
+    simp [Exc.ok, hl, hn]
+
+theorem pre_ok (e : Exc) (h : Hop) (hok : e.ok = true) : (h.pre e).ok = true := by
+  cases e with
+  | mk c a l k m =>
+    simp only [Hop.pre]
+    cases h.reraise with
+    | none => exact hok
+    | some own =>
+      simp only [Exc.ok, Bool.and_eq_true] at hok
+      simp [Exc.raised, Exc.ok, hok.2]
+
+theorem run_cons_eq (e e1 : Exc) (h : Hop) (hs : List Hop) (h1 : step F e h = some e1) :
+    run F e (h :: hs) = run F e1 hs := by
+  simp [run, Core.run_cons, h1]
+
+/-- the first hop of an exception that carries tracebacks -/
+theorem step_first (e : Exc) (hok : e.ok = true) (h : Hop) :
+    ∃ c a t m, step F e h = some (.mk c a none (.remote t) m) ∧ m.recv = true ∧
+      wrapText F h.proc (h.pre e).live (h.pre e).cause .dflt = some t ∧
+      ImgT F h.proc (h.pre e) t (.mk c a none (.remote t) m) := by
+  have hok0 := pre_ok e h hok
+  obtain ⟨t, ht⟩ := wrapText_ok F h.proc (h.pre e) hok0
+  obtain ⟨e1, h1, hr, hi⟩ := hop_first F h.proc (h.pre e) .dflt (ok_mem _ hok0) t ht
+  obtain ⟨c, a, t1, m, rfl, hm⟩ := recv_shape e1 hr
+  have : t1 = t := by
+    cases hpe : h.pre e with
+    | mk c0 a0 l k m0 =>
+      rw [hpe] at hi
+      simp only [ImgT, Exc.cause, Cause.remote.injEq] at hi
+      exact hi.2.2.2.1
+  subst this
+  exact ⟨c, a, t1, m, h1, hm, ht, hi⟩
+
 end RemoteExc
